@@ -123,6 +123,34 @@ Mis(pre, r, ev) ==
    \o Chk(ev.mon = MonFlags(post), "monitor-flags", "C13 C05", MonFlags(post), ev.mon)
    \o Chk(ev.comp = Completed(post), "is_completed", "C06 C05", Completed(post), ev.comp)
 
+\* ---- atomicity of a mock object's destruction (C12) ----
+\* The implementation destroys a mock in one critical section per expectation list (events "dmlist", validated one by one
+\* above).  The property asks for more: the whole destruction must be explainable as ONE atomic step.  At the first section
+\* of a destruction the window up to its last section is examined: is there a position among the other threads' steps
+\* inside the window at which the atomic DestroyMockStep explains every recorded observation of the window?
+DmWindowEnd(i, m) ==
+  LET js == {j \in i..Len(TraceLog) : TraceLog[j].e = "dmlist" /\ TraceLog[j].a[1] = m /\ TraceLog[j].a[4] = 1}
+  IN  IF js = {} THEN 0 ELSE Min(js)
+RECURSIVE FoldOk(_, _)
+FoldOk(s, evs) ==
+  IF evs = <<>> THEN TRUE
+  ELSE LET r == Step(s, Head(evs)) IN Mis(s, r, Head(evs)) = <<>> /\ FoldOk(r.st, Tail(evs))
+RECURSIVE CatReps(_)
+CatReps(evs) == IF evs = <<>> THEN <<>> ELSE Head(evs).reps \o CatReps(Tail(evs))
+DmAtomicMis(s, i) ==
+  LET ev  == TraceLog[i]
+      m   == ev.a[1]
+      j   == DmWindowEnd(i, m)
+  IN  IF j = 0 THEN <<>>
+      ELSE LET win  == [k \in 1..(j - i + 1) |-> TraceLog[i + k - 1]]
+               mine == SelectSeq(win, LAMBDA e : e.e = "dmlist" /\ e.a[1] = m)
+               oth  == SelectSeq(win, LAMBDA e : ~(e.e = "dmlist" /\ e.a[1] = m))
+               dm   == [ev EXCEPT !.e = "dmock", !.a = <<m>>, !.reps = CatReps(mine), !.lockviol = <<>>]
+               ok   == \E p \in 0..Len(oth) : FoldOk(s, SubSeq(oth, 1, p) \o <<dm>> \o SubSeq(oth, p + 1, Len(oth)))
+           IN  Chk(ok, "dmock-atomicity", "C12",
+                   "the destruction of a mock object takes effect atomically among the other threads' operations",
+                   [mock |-> m, sections |-> Len(mine), interleaved |-> [k \in 1..Len(oth) |-> <<oth[k].e, oth[k].a>>]])
+
 Stamp(ms, line, seg) == [i \in 1..Len(ms) |-> ms[i] @@ [line |-> line, seg |-> seg]]
 
 TraceInit ==
@@ -154,7 +182,7 @@ Consume ==
        [] OTHER ->
             IF bad \/ st.unspec THEN UNCHANGED <<st, bad, segid, viol>>
             ELSE LET r  == Step(st, ev)
-                     ms == Mis(st, r, ev)
+                     ms == Mis(st, r, ev) \o (IF ev.e = "dmlist" /\ Len(ev.a) >= 5 /\ ev.a[5] = 1 THEN DmAtomicMis(st, l) ELSE <<>>)
                  IN  /\ st' = r.st
                      /\ segid' = segid
                      /\ bad' = (ms # <<>>)
